@@ -283,6 +283,36 @@ def check_nested(ctx, outer, inner, am, content, src):
     return out
 
 
+# An element whose content starts with an EMPTY element and goes on with content that depends on line starts or on quote
+# runs: the content is the one the element has without the empty element, plus that element in front.
+HOLD_OUTER = ["div", "blockquote", "center", "td", "li", "span"]
+HOLD_EMPTY = ['<span id="anchor"></span>', "<b></b>", '<ref name="x"></ref>', "<br>", '<span id="a"></span><i></i>']
+HOLD_BLOCKS = ["{|\n|a\n|b\n|-\n|c\n|d\n|}", "* i\n* j", "''it'' and '''b'''", ":x\n:y", "t\n----\nu", "{{t|a}}\n[[l|m]]"]
+
+
+def check_hold(ctx, outer, empty, block, tail):
+    def content(pre):
+        ctx.start_page("Tt")
+        root = ctx.parse('<%s class="box">%s\n%s\n</%s>%s' % (outer, pre, block, outer, tail))
+        nodes = [x for x in root.children if isinstance(x, WikiNode) and x.kind == K.HTML and x.sarg == outer]
+        if len(nodes) != 1:
+            return None, dump(root)[2:]
+        return nodes[0], dump(root)[2:]
+    base, bd = content("")
+    node, d = content(empty)
+    src = '<%s class="box">%s\n%s\n</%s>%s' % (outer, empty, block, outer, tail)
+    if base is None:
+        return src, []          # (the container does not take this content as one element even without the empty element)
+    if node is None:
+        return src, [("element_holds_its_content", d, bd)]
+    n_empty = empty.count("<") // 2 if "</" in empty else 1
+    got = sig(node.children)
+    want = sig(base.children)
+    if got[n_empty:] != want or len(got) != n_empty + len(want):
+        return src, [("element_holds_its_content", got, ["(%d empty element(s))" % n_empty] + want)]
+    return src, []
+
+
 def arg_expect(exp, atom, kind):
     """Expected argument list for one written argument: plain text stays one verbatim string, a nested
     call / link becomes its node."""
@@ -394,6 +424,14 @@ def work(payload, skip, report):
             for o, ob, ex in res:
                 acc.violation(o, {"first": first, "input": second, "kind": "same_page"}, ob, ex)
         acc.sample({"first": UNFINISHED[0], "input": SECOND_DOCS[0]})
+        for outer, empty, block, tail in itertools.product(HOLD_OUTER, HOLD_EMPTY, HOLD_BLOCKS, ("", " z", "\n<i>k</i>")):
+            report(i)
+            i += 1
+            src, res = check_hold(ctx, outer, empty, block, tail)
+            acc.case()
+            acc.distinct("inputs", src)
+            for o, ob, ex in res:
+                acc.violation(o, {"input": src, "kind": "hold", "spec": [outer, empty, block, tail]}, ob, ex)
         for conts, sep in itertools.product(itertools.product(range(len(BANG_CONT)), repeat=4), ("nl", "inline", "inline_tight")):
             report(i)
             i += 1
@@ -523,6 +561,8 @@ def replay(case):
         if k == "table":
             r, c, sep, cap, tattr, rattr, cattr, hdr, a, b, cc = spec
             _, res = check_table(ctx, exp, (r, c, sep, tuple(cap) if cap else None, tattr, rattr, cattr, hdr, a, b, cc))
+        elif k == "hold":
+            _, res = check_hold(ctx, spec[0], spec[1], spec[2], spec[3])
         elif k == "bang":
             _, res = check_bang(ctx, exp, tuple(spec[0]), spec[1])
         elif k == "full2x2":
